@@ -392,6 +392,17 @@ func (vc *VC) loopHead(fr *Frame, li *loopInfo, cur *State, ins []edgeState) *St
 		st.next = nn
 	}
 	mods.ghost[fmt.Sprintf("visited%d", li.ordinal)] = true
+	// ghost variables assigned by a ghostset anchored inside the loop body
+	if fr.con != nil {
+		for _, cl := range fr.con.Asserts {
+			if !strings.HasPrefix(cl.Kind, "ghostset:") {
+				continue
+			}
+			if vc.anchorInBlocks(cl.Match, li.body, 0) {
+				mods.ghost[strings.TrimPrefix(cl.Kind, "ghostset:")] = true
+			}
+		}
+	}
 	for g := range mods.ghost {
 		if old, ok := st.ghost[g]; ok {
 			if old.K == KGhost {
@@ -1602,4 +1613,37 @@ func rootsOutsideLoop(roots []ssa.Value, li *loopInfo) bool {
 func isMapType(t types.Type) bool {
 	_, ok := t.Underlying().(*types.Map)
 	return ok
+}
+
+// anchorInBlocks: some instruction of the given blocks (or of closures created / functions
+// inlined there) lies on a source line containing the anchor text.
+func (vc *VC) anchorInBlocks(match string, blocks map[*ssa.BasicBlock]bool, depth int) bool {
+	for b := range blocks {
+		for _, in := range b.Instrs {
+			if in.Pos().IsValid() {
+				if strings.Contains(vc.eng.lineTextFull(vc.pos(in.Pos())), match) {
+					return true
+				}
+			}
+			if depth < 3 {
+				var callee *ssa.Function
+				switch x := in.(type) {
+				case *ssa.MakeClosure:
+					callee, _ = x.Fn.(*ssa.Function)
+				case *ssa.Call:
+					callee = x.Call.StaticCallee()
+				}
+				if callee != nil && callee.Blocks != nil && callee.Parent() != nil {
+					bs := map[*ssa.BasicBlock]bool{}
+					for _, cb := range callee.Blocks {
+						bs[cb] = true
+					}
+					if vc.anchorInBlocks(match, bs, depth+1) {
+						return true
+					}
+				}
+			}
+		}
+	}
+	return false
 }
